@@ -115,7 +115,17 @@ struct Shared {
 }
 
 fn lock_inc(sh: &Shared) {
-    let mut g = sh.m.lock().unwrap_or_else(|e| e.into_inner());
+    let mut g = match sh.m.lock() {
+        Ok(g) => {
+            // the flag is set by a holder while it holds the lock, right before it panics: whoever
+            // gets the lock afterwards must be told (the guard's drop poisons before it releases)
+            if sh.m_panicked_holding.load(Ordering::Relaxed) {
+                violation("Mutex::lock returned Ok(guard) although an earlier holder panicked while holding the guard: the lock was passed on before it was poisoned");
+            }
+            g
+        }
+        Err(e) => e.into_inner(),
+    };
     let v = *g;
     engine::point();
     *g = v + 1;
@@ -123,7 +133,15 @@ fn lock_inc(sh: &Shared) {
 }
 
 fn write_inc(sh: &Shared) {
-    let mut g = sh.rw.write().unwrap_or_else(|e| e.into_inner());
+    let mut g = match sh.rw.write() {
+        Ok(g) => {
+            if sh.rw_panicked_holding.load(Ordering::Relaxed) {
+                violation("RwLock::write returned Ok(guard) although an earlier writer panicked while holding the guard: the lock was passed on before it was poisoned");
+            }
+            g
+        }
+        Err(e) => e.into_inner(),
+    };
     let v = *g;
     engine::point();
     *g = v + 1;
@@ -156,7 +174,15 @@ fn body(spec: &Spec, sh: &Arc<Shared>, tx: &mpsc::Sender<u32>) -> u32 {
             Step::LockInc if !holding_for_cancel => lock_inc(sh),
             Step::WriteInc if !holding_for_cancel => write_inc(sh),
             Step::ReadCheck if !holding_for_cancel => {
-                let g = sh.rw.read().unwrap_or_else(|e| e.into_inner());
+                let g = match sh.rw.read() {
+                    Ok(g) => {
+                        if sh.rw_panicked_holding.load(Ordering::Relaxed) {
+                            violation("RwLock::read returned Ok(guard) although an earlier writer panicked while holding the guard: the lock was passed on before it was poisoned");
+                        }
+                        g
+                    }
+                    Err(e) => e.into_inner(),
+                };
                 let v = *g;
                 engine::point();
                 if *g != v {
@@ -364,7 +390,17 @@ pub fn run(seed: u64, mut ov: impl FnMut(&mut engine::Cfg)) -> ! {
         let s = Spec { id: 200 + w as u32, steps: vec![Step::Yield, Step::LockInc], fate: Fate::Normal, custom_stack: false, detached: false };
         let h = unsafe { coroutine::Builder::new().id(w).spawn({
             let (s2, sh2, tx2) = (s.clone(), sh.clone(), tx.clone());
-            move || body(&s2, &sh2, &tx2)
+            move || {
+                // std counts panics per OS thread; nothing unwinds now, so no worker may claim to
+                // be panicking (it would mean that lock guards taken on it never poison)
+                if std::thread::panicking() {
+                    violation(&format!(
+                        "worker {} reports thread::panicking() although nothing is unwinding: a coroutine was switched out / moved while it unwound, poisoning is broken on this worker",
+                        w % 8
+                    ));
+                }
+                body(&s2, &sh2, &tx2)
+            }
         }).unwrap() };
         last.push((s, h));
     }
@@ -547,6 +583,242 @@ pub fn run_detached(seed: u64, mut ov: impl FnMut(&mut engine::Cfg)) -> ! {
     let h = unsafe { coroutine::spawn(|| 5u32) };
     if !matches!(h.join(), Ok(5)) {
         violation("a coroutine spawned afterwards did not complete");
+    }
+    engine::finish_ok()
+}
+
+
+// ------------------------------------------------------------------------------------------------
+// aimed: a coroutine that unwinds (scripted panic while holding a guard) ends up waiting for
+// another worker inside the unlock (Park::drop of a cancelled waiter's blocker whose registration
+// is still in progress on a stalled worker). std counts panics per OS thread: the worker must not
+// run other coroutines meanwhile - a victim that takes a lock then and panics later would not
+// poison it - and the unwinding coroutine must not come back on another worker
+// ------------------------------------------------------------------------------------------------
+
+#[derive(Debug)]
+struct ParamsU {
+    rwlock: bool,
+    /// which load in cancel.rs of the waiter's worker gets the stall (the right one is the
+    /// is_canceled re-check at the end of Park::subscribe)
+    site_nth: u32,
+    cancel_delay_ns: u64,
+    victim_yields: u32,
+    /// variant: the unwinding coroutine is a cancelled spsc receiver woken by a send while its
+    /// registration (spsc Park::subscribe) is still held up on another worker
+    spsc: bool,
+}
+
+fn gen_u(seed: u64) -> ParamsU {
+    let mut r = gen_rng(seed);
+    ParamsU { rwlock: r.chance(1, 2), site_nth: r.below(4) as u32, cancel_delay_ns: *r.pick(&[20_000u64, 100_000, 400_000]), victim_yields: r.range(1, 4) as u32, spsc: r.chance(1, 3) }
+}
+
+pub fn run_unwind(seed: u64, mut ov: impl FnMut(&mut engine::Cfg)) -> ! {
+    let p = gen_u(seed);
+    let mut cfg = swarm_cfg(seed, &Swarm { stalls: false, ..swarm() });
+    // time passes while somebody runs (the stalled worker comes back while others spin)
+    cfg.tick_ns = 25;
+    ov(&mut cfg);
+    engine::init(cfg);
+    engine::set_extra("params", engine::json_str(&format!("{:?}", p)));
+    rt::boot(&RtCfg { workers: 2, pool_cap: 8, stack_size: 0x8000, poll_ns: 10_000_000 });
+    engine::set_diag(|| format!("in flight: {}", OPS.pending()));
+    engine::set_vt_limit(engine::now() + 500_000_000);
+
+    if p.spsc {
+        run_unwind_spsc(&p);
+    }
+    let m: Arc<Mutex<u64>> = Arc::new(Mutex::new(0));
+    let rw: Arc<RwLock<u64>> = Arc::new(RwLock::new(0));
+    let m2: Arc<Mutex<u64>> = Arc::new(Mutex::new(0));
+    let h_holds = Arc::new(AtomicBool::new(false));
+    let w_parking = Arc::new(AtomicBool::new(false));
+    let w_gone = Arc::new(AtomicBool::new(false));
+    let (vtx, vrx) = mpsc::channel::<u32>();
+
+    // the victim: takes a lock while the holder is (wrongly) switched out mid-unwind, panics later
+    let victim = {
+        let (m2, yields) = (m2.clone(), p.victim_yields);
+        unsafe {
+            coroutine::spawn(move || {
+                let _ = vrx.recv();
+                let mut g = m2.lock().unwrap();
+                *g += 1;
+                for _ in 0..yields {
+                    coroutine::yield_now();
+                }
+                if yields < 100 {
+                    std::panic::panic_any(Scripted(2));
+                }
+            })
+        }
+    };
+    // the holder
+    let holder = {
+        let (m, rw, hh, wg, use_rw) = (m.clone(), rw.clone(), h_holds.clone(), w_gone.clone(), p.rwlock);
+        unsafe {
+            coroutine::spawn(move || {
+                let g1 = if use_rw { None } else { Some(m.lock().unwrap()) };
+                let g2 = if use_rw { Some(rw.write().unwrap()) } else { None };
+                rt::set_flag(&hh);
+                rt::wait_flag(&wg, usize::MAX);
+                // the victim becomes runnable, then we unwind while holding the guard
+                let _ = vtx.send(1);
+                let _keep = (g1, g2);
+                if use_rw || !use_rw {
+                    std::panic::panic_any(Scripted(1));
+                }
+            })
+        }
+    };
+    // the waiter: its worker is held up at the end of Park::subscribe, it is cancelled meanwhile
+    let waiter = {
+        let (m, rw, hh, wp, wg, use_rw, nth) = (m.clone(), rw.clone(), h_holds.clone(), w_parking.clone(), w_gone.clone(), p.rwlock, p.site_nth);
+        unsafe {
+            coroutine::spawn(move || {
+                struct G(Arc<AtomicBool>);
+                impl Drop for G {
+                    fn drop(&mut self) {
+                        rt::set_flag(&self.0);
+                    }
+                }
+                let _g = G(wg);
+                rt::wait_flag(&hh, usize::MAX);
+                rt::set_flag(&wp);
+                engine::stall_self_at_site("src/cancel.rs", "load", nth, 1_500_000);
+                if use_rw {
+                    let _x = rw.write();
+                } else {
+                    let _x = m.lock();
+                }
+                engine::disarm_stall();
+            })
+        }
+    };
+    let ctl = {
+        let (wp, co, d) = (w_parking.clone(), waiter.coroutine().clone(), p.cancel_delay_ns);
+        rt::spawn_actor(Ctx::Thread, "ctl", move || {
+            rt::wait_flag(&wp, usize::MAX);
+            engine::sleep(d);
+            unsafe { co.cancel() };
+        })
+    };
+    rt::await_actors(std::slice::from_ref(&ctl), engine::now() + 100_000_000);
+    let o = OPS.begin("join of the waiter".to_string());
+    let _ = waiter.join();
+    o.done();
+    let o = OPS.begin("join of the holder".to_string());
+    match holder.join() {
+        Err(e) if e.downcast_ref::<Scripted>().map(|s| s.0) == Some(1) => {}
+        _ => violation("the holder did not end with its own panic"),
+    }
+    o.done();
+    let o = OPS.begin("join of the victim".to_string());
+    match victim.join() {
+        Err(e) if e.downcast_ref::<Scripted>().map(|s| s.0) == Some(2) => {}
+        _ => violation("the victim did not end with its own panic"),
+    }
+    o.done();
+    if !m2.is_poisoned() {
+        violation("Mutex::is_poisoned() is false although its guard was dropped by a panic of the holder: the guard was taken while the worker thread counted as panicking (another coroutine had been switched out in the middle of its unwinding)");
+    }
+    let poisoned = if p.rwlock { rw.is_poisoned() } else { m.is_poisoned() };
+    if !poisoned {
+        violation("the lock whose guard the panicking holder dropped is not poisoned");
+    }
+    // no worker is left "panicking"
+    let mut last = Vec::new();
+    for w in 0..4usize {
+        last.push(unsafe { coroutine::Builder::new().id(w).spawn(move || std::thread::panicking()).unwrap() });
+    }
+    for (w, h) in last.into_iter().enumerate() {
+        match h.join() {
+            Ok(false) => {}
+            Ok(true) => violation(&format!(
+                "worker {} reports thread::panicking() although nothing is unwinding: a coroutine was switched out / moved while it unwound, poisoning is broken on this worker",
+                w % 2
+            )),
+            Err(_) => violation("late coroutine panicked"),
+        }
+    }
+    engine::finish_ok()
+}
+
+fn run_unwind_spsc(p: &ParamsU) -> ! {
+    use may::sync::spsc;
+    let m2: Arc<Mutex<u64>> = Arc::new(Mutex::new(0));
+    let w_parking = Arc::new(AtomicBool::new(false));
+    let (vtx, vrx) = mpsc::channel::<u32>();
+    let (stx, srx) = spsc::channel::<u32>();
+    let victim = {
+        let (m2, yields) = (m2.clone(), p.victim_yields);
+        unsafe {
+            coroutine::spawn(move || {
+                let _ = vrx.recv();
+                let mut g = m2.lock().unwrap();
+                *g += 1;
+                for _ in 0..yields {
+                    coroutine::yield_now();
+                }
+                if yields < 100 {
+                    std::panic::panic_any(Scripted(2));
+                }
+            })
+        }
+    };
+    // the receiver: its worker is held up inside spsc's Park::subscribe, it is cancelled (only the
+    // flag is set: this park is not registered with the cancel data) and then woken by a send
+    let waiter = {
+        let (wp, nth) = (w_parking.clone(), p.site_nth);
+        unsafe {
+            coroutine::spawn(move || {
+                rt::set_flag(&wp);
+                engine::stall_self_at_site("src/sync/spsc.rs", "load", nth, 1_500_000);
+                let _ = srx.recv();
+                engine::disarm_stall();
+            })
+        }
+    };
+    let ctl = {
+        let (wp, co, d) = (w_parking.clone(), waiter.coroutine().clone(), p.cancel_delay_ns);
+        rt::spawn_actor(Ctx::Thread, "ctl", move || {
+            rt::wait_flag(&wp, usize::MAX);
+            engine::sleep(d);
+            unsafe { co.cancel() };
+            // the victim becomes runnable, then the receiver is woken and unwinds
+            let _ = vtx.send(1);
+            let _ = stx.send(9);
+            engine::sleep(10_000_000);
+            drop(stx);
+        })
+    };
+    rt::await_actors(std::slice::from_ref(&ctl), engine::now() + 100_000_000);
+    let o = OPS.begin("join of the receiver".to_string());
+    let _ = waiter.join();
+    o.done();
+    let o = OPS.begin("join of the victim".to_string());
+    match victim.join() {
+        Err(e) if e.downcast_ref::<Scripted>().map(|s| s.0) == Some(2) => {}
+        _ => violation("the victim did not end with its own panic"),
+    }
+    o.done();
+    if !m2.is_poisoned() {
+        violation("Mutex::is_poisoned() is false although its guard was dropped by a panic of the holder: the guard was taken while the worker thread counted as panicking (another coroutine had been switched out in the middle of its unwinding)");
+    }
+    let mut last = Vec::new();
+    for w in 0..4usize {
+        last.push(unsafe { coroutine::Builder::new().id(w).spawn(move || std::thread::panicking()).unwrap() });
+    }
+    for (w, h) in last.into_iter().enumerate() {
+        match h.join() {
+            Ok(false) => {}
+            Ok(true) => violation(&format!(
+                "worker {} reports thread::panicking() although nothing is unwinding: a coroutine was switched out / moved while it unwound, poisoning is broken on this worker",
+                w % 2
+            )),
+            Err(_) => violation("late coroutine panicked"),
+        }
     }
     engine::finish_ok()
 }
